@@ -1398,13 +1398,27 @@ func (h *c18hist) genConstraint(expr bool) (buildtags.Constraint, []string, stri
 	var toks []string
 	var fields []string
 	nopt := 1 + h.r.intn(2)
-	toks = append(toks, itoa(nopt))
 	bad := h.r.intn(1000) < h.pFault
-	badAt := h.r.intn(nopt)
+	emptyOpt := false
+	if bad && h.r.chance(1, 6) {
+		if expr || h.r.chance(1, 2) {
+			nopt = 0 // empty constraint (ConstraintExpr(""))
+		} else {
+			emptyOpt = true
+		}
+	}
+	toks = append(toks, itoa(nopt))
+	badAt := h.r.intn(nopt + 1)
+	if badAt >= nopt {
+		badAt = 0
+	}
 	for i := 0; i < nopt; i++ {
 		nterm := 1 + h.r.intn(2)
 		if expr && bad && i == badAt {
 			nterm = 2
+		}
+		if emptyOpt && i == badAt {
+			nterm = 0
 		}
 		var o buildtags.Option
 		var ts []string
@@ -1749,9 +1763,7 @@ func (h *c18hist) genOne(limits map[int]int) {
 	case w < 935:
 		h.genPressure(limits)
 	case w < 937:
-		if h.r.chance(1, 4) {
-			h.genImplicitOnly()
-		}
+		h.genImplicitOnly()
 	case w < 952:
 		if h.pPassFault > 0 {
 			h.genLabelFault()
@@ -1918,6 +1930,8 @@ var c18msgClasses = []struct{ sub, tag string }{
 	{"at most one '!' allowed", "constraint"},
 	{"empty tag name", "constraint"},
 	{"disallowed in tags", "constraint"},
+	{"empty constraint", "constraint"},
+	{"empty option", "constraint"},
 }
 
 func c18classify(msg string) string {
@@ -1995,10 +2009,10 @@ func c18run(r *rng, limits map[int]int, stats map[string]int, script func(h *c18
 		h.pPassFault = pick(r, []int{100, 300})
 		stats["mode_mixed"]++
 	}
-	if h.pFault > 0 && r.chance(1, 12) {
+	if h.pFault > 0 && r.chance(1, 3) {
 		h.negIdx = true
 	}
-	if h.pPassFault > 0 && r.chance(1, 10) {
+	if h.pPassFault > 0 && r.chance(1, 3) {
 		h.adjDup = true
 	}
 	// register pool (allocated from the context under test)
